@@ -594,10 +594,10 @@ func (p *parser) BasicParser(urlOrRef string, baseUrl *Url, url *Url, stateOverr
 					url.path.shortenPath(url.scheme)
 
 					if r != '/' && !url.isSpecialSchemeAndBackslash(r) {
-						url.path.addSegment("")
+						p.addEmptySegment(url)
 					}
 				} else if isSingleDotPathSegment(buffer.String()) && r != '/' && !url.isSpecialSchemeAndBackslash(r) {
-					url.path.addSegment("")
+					p.addEmptySegment(url)
 				} else if !isSingleDotPathSegment(buffer.String()) {
 					if url.scheme == "file" && url.path.isEmpty() && isWindowsDriveLetter(buffer.String()) {
 						// replace second code point in buffer with U+003A (:).
@@ -723,6 +723,15 @@ func (p *parser) BasicParser(urlOrRef string, baseUrl *Url, url *Url, stateOverr
 	}
 
 	return url, nil
+}
+
+// addEmptySegment appends the empty segment a trailing dot segment stands for, unless consecutive
+// slashes are being collapsed and the path already ends with an empty segment.
+func (p *parser) addEmptySegment(url *Url) {
+	if p.opts.collapseConsecutiveSlashes && url.IsSpecialScheme() && !url.path.isEmpty() && len(url.path.p[len(url.path.p)-1]) == 0 {
+		return
+	}
+	url.path.addSegment("")
 }
 
 func (p *parser) percentEncodeInvalidRune(r rune, tr *PercentEncodeSet) string {
